@@ -262,6 +262,8 @@ def build_obj(spec, lsb0: bool, made: list):
         x = cls(truthy_list(bits))
     elif r == 'bitarray_auto':
         x = cls(bitarray.bitarray(bits))
+    elif r == 'bitarray_little_auto':
+        x = cls(bitarray.bitarray(bits, endian='little'))
     elif r == 'frozenbitarray_auto':
         x = cls(bitarray.frozenbitarray(bits))
     elif r == 'slice':
@@ -380,7 +382,7 @@ def build_file(cls, r, bits, a, made):
 
 def pick_route(rng, clsname, bits, lsb0, short_ok=False):
     L = len(bits)
-    c = ['bin', 'bin', 'token_bin', 'list', 'tuple', 'gen', 'truthy', 'bitarray_auto', 'frozenbitarray_auto',
+    c = ['bin', 'bin', 'token_bin', 'list', 'tuple', 'gen', 'truthy', 'bitarray_auto', 'bitarray_little_auto', 'frozenbitarray_auto',
          'slice', 'slice', 'copy_from']
     if L % 4 == 0:
         c += ['hex'] + (['token_hex'] if L else [])
@@ -574,7 +576,7 @@ def build_rhs(rhs, made):
     if kind == 'truthy':
         return truthy_list(bits)
     if kind == 'bitarray':
-        return bitarray.bitarray(bits)
+        return bitarray.bitarray(bits, endian='little') if len(bits) % 3 == 1 else bitarray.bitarray(bits)
     if kind == 'frozenbitarray':
         return bitarray.frozenbitarray(bits)
     if kind == 'filehandle':
